@@ -1451,18 +1451,20 @@ struct array : static_array<T, D, Alloc> {
 		if(extensions == this->extensions()) {
 			return std::move(*this);
 		}
-		this->destroy();
-		this->deallocate();
-		this->layout_mutable() = typename array::layout_t{extensions};
-		this->base_            = this->static_::array_alloc::allocate(
-            static_cast<typename multi::allocator_traits<typename array::allocator_type>::size_type>(
-                typename array::layout_t{extensions}.num_elements()
-            ),
-            this->data_elements()  // used as hint
-        );
+		this->clear();  // empty and valid from here on: an exception below leaves no dangling base and nothing to destroy twice
+		auto const new_layout = typename array::layout_t{extensions};
+		auto const count      = static_cast<typename multi::allocator_traits<typename array::allocator_type>::size_type>(new_layout.num_elements());
+		auto const new_base   = this->static_::array_alloc::allocate(count, nullptr);
 		if constexpr(!(std::is_trivially_default_constructible_v<typename array::element_type> || multi::force_element_trivial_default_construction<typename array::element_type>)) {
-			adl_alloc_uninitialized_value_construct_n(this->alloc(), this->base_, this->num_elements());
+			try {
+				adl_alloc_uninitialized_value_construct_n(this->alloc(), new_base, new_layout.num_elements());
+			} catch(...) {
+				if(count != 0) { multi::allocator_traits<typename array::allocator_type>::deallocate(this->alloc(), new_base, count); }
+				throw;
+			}
 		}
+		this->base_            = new_base;
+		this->layout_mutable() = new_layout;
 		return std::move(*this);
 	}
 
@@ -1470,20 +1472,31 @@ struct array : static_array<T, D, Alloc> {
 		if(extensions == this->extensions()) {
 			return *this;
 		}
+		auto const count = static_cast<typename multi::allocator_traits<typename array::allocator_type>::size_type>(typename array::layout_t{extensions}.num_elements());
 		auto&& tmp = typename array::ref(
 			this->static_::array_alloc::allocate(
-				static_cast<typename multi::allocator_traits<typename array::allocator_type>::size_type>(
-					typename array::layout_t{extensions}.num_elements()
-				),
+				count,
 				this->data_elements()  // used as hint
 			),
 			extensions
 		);
-		if constexpr(!(std::is_trivially_default_constructible_v<typename array::element_type> || multi::force_element_trivial_default_construction<typename array::element_type>)) {
-			adl_alloc_uninitialized_value_construct_n(this->alloc(), tmp.data_elements(), tmp.num_elements());
+		try {  // if an element operation throws, the new block is released and *this is left as it was
+			if constexpr(!(std::is_trivially_default_constructible_v<typename array::element_type> || multi::force_element_trivial_default_construction<typename array::element_type>)) {
+				adl_alloc_uninitialized_value_construct_n(this->alloc(), tmp.data_elements(), tmp.num_elements());
+			}
+			try {
+				auto const is = intersection(this->extensions(), tmp.extensions());  // tmp's own (possibly collapsed-to-empty) extensions: the requested ones may name a range an empty array does not have
+				tmp.apply(is) = this->apply(is);  // TODO(correaa) : use (and implement) `.move();`
+			} catch(...) {
+				if constexpr(!(std::is_trivially_destructible_v<typename array::element_type> || multi::force_element_trivial_destruction<typename array::element_type>)) {
+					adl_alloc_destroy_n(this->alloc(), tmp.data_elements(), tmp.num_elements());
+				}
+				throw;
+			}
+		} catch(...) {
+			if(count != 0) { multi::allocator_traits<typename array::allocator_type>::deallocate(this->alloc(), tmp.data_elements(), count); }
+			throw;
 		}
-		auto const is = intersection(this->extensions(), tmp.extensions());  // tmp's own (possibly collapsed-to-empty) extensions: the requested ones may name a range an empty array does not have
-		tmp.apply(is) = this->apply(is);  // TODO(correaa) : use (and implement) `.move();`
 		this->destroy();
 		this->deallocate();
 		this->base_            = tmp.base();
@@ -1505,16 +1518,29 @@ struct array : static_array<T, D, Alloc> {
 		// swap(tmp);
 
 		// implementation with hint
+		auto const count = static_cast<typename multi::allocator_traits<typename array::allocator_type>::size_type>(typename array::layout_t{exs}.num_elements());
 		auto&& tmp = typename array::ref(
 			this->static_::array_alloc::allocate(
-				static_cast<typename multi::allocator_traits<typename array::allocator_type>::size_type>(typename array::layout_t{exs}.num_elements()),
+				count,
 				this->data_elements()  // use as hint
 			),
 			exs
 		);
-		this->uninitialized_fill_n(tmp.data_elements(), static_cast<typename multi::allocator_traits<typename array::allocator_type>::size_type>(tmp.num_elements()), elem);
-		auto const is = intersection(this->extensions(), tmp.extensions());
-		tmp.apply(is) = this->apply(is);
+		try {  // if an element operation throws, the new block is released and *this is left as it was
+			this->uninitialized_fill_n(tmp.data_elements(), static_cast<typename multi::allocator_traits<typename array::allocator_type>::size_type>(tmp.num_elements()), elem);
+			try {
+				auto const is = intersection(this->extensions(), tmp.extensions());
+				tmp.apply(is) = this->apply(is);
+			} catch(...) {
+				if constexpr(!(std::is_trivially_destructible_v<typename array::element_type> || multi::force_element_trivial_destruction<typename array::element_type>)) {
+					adl_alloc_destroy_n(this->alloc(), tmp.data_elements(), tmp.num_elements());
+				}
+				throw;
+			}
+		} catch(...) {
+			if(count != 0) { multi::allocator_traits<typename array::allocator_type>::deallocate(this->alloc(), tmp.data_elements(), count); }
+			throw;
+		}
 		this->destroy();
 		this->deallocate();
 		this->base_            = tmp.base();  // TODO(correaa) : use (and implement) `.move();`
